@@ -216,6 +216,12 @@ func (c17) Run(t *tape.Tape, cfg sim.Config) (res sim.Result) {
 		s.mapSnap = s.snapMap()
 		fsc = fsc.WithFSMount(s.mapfs, "/")
 	}
+	if t.Chance(1, 3) {
+		// the embedder derives a second configuration from the read-only one, mounting the same directory
+		// writeable at the same guest path (for another guest); the read-only one is the one used here
+		_ = fsc.WithDirMount(e.root, "/")
+		res.Stat("probe.writeable_sibling_config_derived", 1)
+	}
 	s.snap0, err = snapshotDir(e.root)
 	if err != nil {
 		panic(err)
